@@ -9,7 +9,7 @@
 
 using namespace phosg;
 
-VF_SECTION(concurrent_pairs, 16, 16, 300) {
+static std::vector<pp::Call> make_calls() {
   std::vector<pp::Call> calls;
   auto add = [&](const char* name, const char* group, std::function<std::string()> f) { calls.push_back({name, group, pp::guarded(f)}); };
   add("format_duration(999999)", "format_duration", [] { return format_duration(999999); });
@@ -25,7 +25,19 @@ VF_SECTION(concurrent_pairs, 16, 16, 300) {
   add("parse_size(\"1.5 MB\")", "parse_size", [] { return std::to_string(parse_size("1.5 MB")); });
   add("parse_size(\"12\")", "parse_size", [] { return std::to_string(parse_size("12")); });
   add("usecs_to_timeval(1999999)", "usecs_to_timeval", [] { struct timeval tv = usecs_to_timeval(1999999); return std::to_string(tv.tv_sec) + "." + std::to_string(tv.tv_usec); });
+  return calls;
+}
+
+VF_SECTION(concurrent_pairs, 16, 16, 300) {
+  std::vector<pp::Call> calls = make_calls();
   pp::run_pairs(r, calls, r.thorough() ? 400 : 150, r.thorough() ? 150 : 0);
   r.bound = "every unordered pair (and every call with itself) of 13 format_duration / format_time / format_size / parse_size / usecs_to_timeval calls run concurrently: every schedule with <= 2 preemptions for same-function pairs with <= 150 (thorough 400) scheduling points per call (thorough: cross pairs <= 150 too), <= 1 preemption otherwise; basic-block granularity of Time.cc and Strings.cc (libc's gmtime/strftime are atomic steps)";
+}
+
+// First calls: every same-function pair (thorough: every pair) with each schedule in a freshly forked process.
+VF_SECTION(concurrent_cold, 16, 16, 600) {
+  std::vector<pp::Call> calls = make_calls();
+  pp::run_pairs_cold(r, calls, r.thorough());
+  r.bound = "first calls: every same-function pair of the calls above and every call with itself (thorough: every pair), each schedule in a freshly forked process that has never called the library: every schedule with <= 1 preemption at basic-block granularity";
 }
 VF_MAIN()
